@@ -30,6 +30,47 @@ func g09Need(where, text string, snippets ...string) error {
 	return nil
 }
 
+// g09Stmts renders the statements of a block, one string per statement.
+func g09Stmts(f *File, b *ast.BlockStmt) []string {
+	var out []string
+	for _, s := range b.List {
+		out = append(out, f.Src(s))
+	}
+	return out
+}
+
+// g09Exact fails unless the block consists of exactly the given statements.
+func g09Exact(where string, f *File, b *ast.BlockStmt, want ...string) error {
+	got := g09Stmts(f, b)
+	if len(got) != len(want) {
+		return fmt.Errorf("%s: %d statements %q, the model knows %d: %q", where, len(got), got, len(want), want)
+	}
+	for i := range got {
+		if got[i] != want[i] {
+			return fmt.Errorf("%s: statement #%d is %q, the model knows %q", where, i, got[i], want[i])
+		}
+	}
+	return nil
+}
+
+// g09Loop returns the body of the first for/range statement in the function.
+func g09Loop(fd *ast.FuncDecl) *ast.BlockStmt {
+	var body *ast.BlockStmt
+	ast.Inspect(fd.Body, func(x ast.Node) bool {
+		if body != nil {
+			return false
+		}
+		switch l := x.(type) {
+		case *ast.ForStmt:
+			body = l.Body
+		case *ast.RangeStmt:
+			body = l.Body
+		}
+		return body == nil
+	})
+	return body
+}
+
 // genG09 reads internal/martian/h2/{relay,queued_frames,h2}.go.
 func genG09(repo string, w *Out) error {
 	rf, err := Parse(repo, "internal/martian/h2/relay.go")
@@ -88,8 +129,9 @@ func genG09(repo string, w *Out) error {
 		}
 		return true
 	})
-	if len(conds) != 1 {
-		return fmt.Errorf("emitEligibleFrames: expected one if statement, found %q", conds)
+	// the gate is the first if statement; the second one (if present) is the prepare hook
+	if len(conds) < 1 || len(conds) > 2 || (len(conds) == 2 && conds[1] != "ok") {
+		return fmt.Errorf("emitEligibleFrames: expected the gate and the prepare hook, found %q", conds)
 	}
 	parts := strings.Split(conds[0], " || ")
 	if len(parts) != 2 {
@@ -114,9 +156,30 @@ func genG09(repo string, w *Out) error {
 	}
 	w.DefBool("emit_conn_blocks_on_gt", cgt)
 	w.DefBool("emit_stream_blocks_on_gt", sgt)
-	if err := g09Need("emitEligibleFrames", eb, "for e := w.queue.Front(); e != nil; {", "break", "output <- f", "next := e.Next()", "w.queue.Remove(e)", "e = next"); err != nil {
-		return err
+	loop := g09Loop(efd)
+	if loop == nil {
+		return fmt.Errorf("emitEligibleFrames: no loop")
 	}
+	stm := g09Stmts(rf, loop)
+	// the loop body, statement by statement: gate; [prepare]; release; debits; unlink
+	var rest []string
+	for _, x := range stm {
+		if x == "*connectionWindowSize -= f.flowControlSize()" || x == "w.windowSize -= f.flowControlSize()" {
+			continue
+		}
+		rest = append(rest, x)
+	}
+	wantLoop := []string{
+		"f := e.Value.(queuedFrame)",
+		"if " + conds[0] + " { break }",
+		"if p, ok := f.(interface{ prepare() }); ok { p.prepare() }",
+		"output <- f",
+		"next := e.Next()", "w.queue.Remove(e)", "e = next",
+	}
+	if strings.Join(rest, " ; ") != strings.Join(wantLoop, " ; ") {
+		return fmt.Errorf("emitEligibleFrames: loop body %q is not the shape the model knows %q", rest, wantLoop)
+	}
+	w.DefBool("hpack_at_release", true)
 	w.DefBool("emit_debits_conn", strings.Contains(eb, "*connectionWindowSize -= f.flowControlSize()"))
 	w.DefBool("emit_debits_stream", strings.Contains(eb, "w.windowSize -= f.flowControlSize()"))
 
@@ -245,14 +308,32 @@ func genG09(repo string, w *Out) error {
 		return true
 	})
 	w.DefBool("wu_conn_falls_through", falls)
+	if err := g09Exact("updateWindow (after the connection branch)", rf, &ast.BlockStmt{List: ufd.Body.List[1:]},
+		"r.flowMu.Lock()", "w := r.outputBuffer(f.StreamID)", "w.windowSize += int(f.Increment)",
+		"w.emitEligibleFrames(r.output, &r.connectionWindowSize)", "r.flowMu.Unlock()"); err != nil {
+		return err
+	}
+	wantConn := []string{"r.flowMu.Lock()", "r.connectionWindowSize += int(f.Increment)", "r.flowMu.Unlock()", "r.sendQueuedFramesUnderWindowSize()"}
+	if !falls {
+		wantConn = append(wantConn, "return")
+	}
+	if err := g09Exact("updateWindow (connection branch)", rf, first.Body, wantConn...); err != nil {
+		return err
+	}
 
 	// ---- updateInitialWindowSize
-	ib, _, err := g09Body(rf, "relay.updateInitialWindowSize")
+	ib, ifd, err := g09Body(rf, "relay.updateInitialWindowSize")
 	if err != nil {
 		return err
 	}
-	if err := g09Need("updateInitialWindowSize", ib, "delta := int(v) - int(r.initialWindowSize)", "r.initialWindowSize = v",
-		"for _, w := range r.outputBuffers {", "w.windowSize += delta", "r.sendQueuedFramesUnderWindowSize()"); err != nil {
+	touchesConn := strings.Contains(ib, "connectionWindowSize")
+	wantInit := []string{"r.flowMu.Lock()", "delta := int(v) - int(r.initialWindowSize)", "r.initialWindowSize = v",
+		"for _, w := range r.outputBuffers { w.windowSize += delta }"}
+	if touchesConn {
+		wantInit = append(wantInit, "r.connectionWindowSize += delta")
+	}
+	wantInit = append(wantInit, "r.flowMu.Unlock()", "r.sendQueuedFramesUnderWindowSize()")
+	if err := g09Exact("updateInitialWindowSize", rf, ifd.Body, wantInit...); err != nil {
 		return err
 	}
 	w.DefBool("settings_delta_touches_conn", strings.Contains(ib, "connectionWindowSize"))
@@ -310,24 +391,56 @@ func genG09(repo string, w *Out) error {
 		"w.emitEligibleFrames(r.output, &r.connectionWindowSize)", "if len(data) == 0 { break }"); err != nil {
 		return err
 	}
-	hb, _, err := g09Body(rf, "relay.header")
+	_, hfd, err := g09Body(rf, "relay.header")
 	if err != nil {
 		return err
 	}
-	if err := g09Need("header", hb, "encoded, err := r.encodeFull(headers)", "maxPayloadLength := atomic.LoadUint32(&r.maxFrameSize)",
-		"maxHeaderFragmentLength := maxPayloadLength", "if !priority.IsZero() { maxHeaderFragmentLength -= headersPriorityMetadataLength }",
-		"chunks := splitIntoChunks(int(maxHeaderFragmentLength), int(maxPayloadLength), encoded)",
-		"r.enqueueFrame(&queuedHeaderFrame{ streamID: id, endStream: streamEnded, priority: priority, chunks: chunks, })"); err != nil {
+	if err := g09Exact("header", rf, hfd.Body,
+		"r.enqueueFrame(&queuedHeaderFrame{ streamID: id, endStream: streamEnded, priority: priority, headers: append([]hpack.HeaderField(nil), headers...), relay: r, })",
+		"return nil"); err != nil {
 		return err
 	}
-	prb, _, err := g09Body(rf, "relay.pushPromise")
+	_, pfd2, err := g09Body(rf, "relay.pushPromise")
 	if err != nil {
 		return err
 	}
-	if err := g09Need("pushPromise", prb, "encoded, err := r.encodeFull(headers)", "maxHeaderFragmentLength := maxPayloadLength - pushPromiseMetadataLength",
-		"chunks := splitIntoChunks(int(maxHeaderFragmentLength), int(maxPayloadLength), encoded)",
-		"r.enqueueFrame(&queuedPushPromiseFrame{ streamID: id, promiseID: promiseID, chunks: chunks, })"); err != nil {
+	if err := g09Exact("pushPromise", rf, pfd2.Body,
+		"r.enqueueFrame(&queuedPushPromiseFrame{ streamID: id, promiseID: promiseID, headers: append([]hpack.HeaderField(nil), headers...), relay: r, })",
+		"return nil"); err != nil {
 		return err
+	}
+	_, cfd, err := g09Body(rf, "relay.headerChunks")
+	if err != nil {
+		return err
+	}
+	if err := g09Exact("headerChunks", rf, cfd.Body,
+		"encoded, err := r.encodeFull(headers)", "if err != nil { return nil, err }",
+		"maxPayloadLength := atomic.LoadUint32(&r.maxFrameSize)",
+		"maxHeaderFragmentLength := maxPayloadLength - metadataLength",
+		"return splitIntoChunks(int(maxHeaderFragmentLength), int(maxPayloadLength), encoded), nil"); err != nil {
+		return err
+	}
+	_, qpfd, err := g09Body(qf, "queuedHeaderFrame.prepare")
+	if err != nil {
+		return err
+	}
+	if err := g09Exact("queuedHeaderFrame.prepare", qf, qpfd.Body,
+		"var metadataLength uint32", "if !f.priority.IsZero() { metadataLength = headersPriorityMetadataLength }",
+		"f.chunks, f.err = f.relay.headerChunks(f.headers, metadataLength)"); err != nil {
+		return err
+	}
+	_, ppfd, err := g09Body(qf, "queuedPushPromiseFrame.prepare")
+	if err != nil {
+		return err
+	}
+	if err := g09Exact("queuedPushPromiseFrame.prepare", qf, ppfd.Body,
+		"f.chunks, f.err = f.relay.headerChunks(f.headers, pushPromiseMetadataLength)"); err != nil {
+		return err
+	}
+	for _, t := range []string{"queuedDataFrame", "queuedPriorityFrame", "queuedRSTStreamFrame"} {
+		if _, err := qf.Func(t + ".prepare"); err == nil {
+			return fmt.Errorf("%s has a prepare method the model does not know", t)
+		}
 	}
 	spb, _, err := g09Body(rf, "splitIntoChunks")
 	if err != nil {
@@ -345,7 +458,7 @@ func genG09(repo string, w *Out) error {
 	if err != nil {
 		return err
 	}
-	if err := g09Need("queuedHeaderFrame.send", hs, "StreamID: f.streamID", "BlockFragment: f.chunks[0]", "EndStream: f.endStream",
+	if err := g09Need("queuedHeaderFrame.send", hs, "if f.err != nil {", "return", "StreamID: f.streamID", "BlockFragment: f.chunks[0]", "EndStream: f.endStream",
 		"EndHeaders: len(f.chunks) <= 1", "PadLength: 0", "Priority: f.priority", "for i := 1; i < len(f.chunks); i++ {",
 		"headersEnded := i == len(f.chunks)-1", "dest.WriteContinuation(f.streamID, headersEnded, f.chunks[i])"); err != nil {
 		return err
@@ -354,7 +467,7 @@ func genG09(repo string, w *Out) error {
 	if err != nil {
 		return err
 	}
-	if err := g09Need("queuedPushPromiseFrame.send", ps, "StreamID: f.streamID", "PromiseID: f.promiseID", "BlockFragment: f.chunks[0]",
+	if err := g09Need("queuedPushPromiseFrame.send", ps, "if f.err != nil {", "return", "StreamID: f.streamID", "PromiseID: f.promiseID", "BlockFragment: f.chunks[0]",
 		"EndHeaders: len(f.chunks) <= 1", "headersEnded := i == len(f.chunks)-1", "dest.WriteContinuation(f.streamID, headersEnded, f.chunks[i])"); err != nil {
 		return err
 	}
